@@ -68,6 +68,10 @@ def check_dispatch(ctx, md, params, result_adt, rule="R-1"):
            "every map entry is either stored or rejected: no iteration goes on to the next entry without a write to the decoded %s"
            % result_adt.split("::")[-1], where=fn.where(skipped[0]) if skipped else fn.span,
            detail={"continues_without_storing_at": [fn.where(b) for b in skipped]})
+    # "accepted if and only if": a rejection raised anywhere below (a nested header, signature, label, value extractor) reaches
+    # the caller of every decoder on the way up - nobody catches an error and carries on (the rule of C15 R-5 for every error)
+    from rules import c15 as _c15
+    _c15.check_rejections_propagate(ctx.under(rule, "rejections"), rule, set(), variants=None, what="any decoding error", floor=40)
     listed = sorted(md.listed)
     ctx.ob(rule, "cases:%s" % result_adt, listed == sorted(params),
            "the typed labels dispatched by the %s decoder are exactly %s (found %s)" % (result_adt, sorted(params), listed), where=fn.span)
@@ -108,6 +112,16 @@ def check(ctx):
         return
     pv = md.pv
     by_label = check_dispatch(ctx, md, HEADER_PARAMS, RESULT)
+    # "pairwise distinct labels": the duplicate rule of this decoder (C12 R-1's recogniser under this property's name)
+    from rules import c12 as _c12
+    _c12.check_decoder(ctx.under("R-1", "distinct-labels"), DEC, "R-1")
+    # accepted "iff ..." is stated for CBOR items reaching the decoder through the byte-level API as well: the one parser entry
+    # hands back exactly the parsed item (C13 R-1's recogniser; a read_to_value that unwraps a tag changes the accepted set)
+    from rules import c13 as _c13
+    _c13.check_read_to_value(ctx.under("R-1", "parser-entry"), "R-1")
+    from rules import structs_common as _S
+    _S.check_derived_impls(ctx, "R-1", {"core::default::Default"}, only_structs=True)
+    _S.check_derived_impls(ctx, "R-1", {"core::cmp::PartialEq", "core::cmp::Eq"})
     _protected_position(ctx)
 
     def sym(t):
